@@ -30,7 +30,7 @@ RULE = (
 )
 BOUNDS = {
     "quick": "1: 7 symmetric + 6 seeded asymmetric wavelet pairs, depth sum <= 2, components up to 4x4, bit depths 1/8/10/16; 2: bands up to 4x4; 4: <= 3 coefficients of 6 bits, scaler up to 8; 5: 2x1 picture, 2-bit samples; 6: 12 lossless configurations x 4 pictures",
-    "thorough": "1: all 49 pairs, depth sum <= 3, components up to 8x8; 2: bands up to 8x8; 4: <= 4 coefficients of 8 bits; 5: 2x2 picture; 6: 20 configurations x 6 pictures",
+    "thorough": "1: all 49 pairs at depth sum <= 2 with components up to 8x8, the 7 symmetric pairs also at depth sum 3 with components up to 5x3; 2: bands up to 8x8; 4: <= 4 coefficients of 8 bits; 5: 2x2 picture; 6: 20 configurations x 6 pictures",
 }
 OUTSIDE = "the composition argument (1-4 imply the property for every configuration) is informal; 5 and 6 check that the pieces are composed in matching order only for the listed configurations"
 ASSUMPTIONS = ["samples are within the configured bit depth (property precondition)"]
@@ -51,11 +51,15 @@ def tasks(tier, seed):
     for (wi, wh) in pairs:
         for d in range(0, 4):
             for dh in range(0, 4):
-                if d + dh > (2 if q else 3):
+                # thorough: depth sum 3 for the symmetric pairs only (asymmetric pairs at depth sum 3 with 8x8 components
+                # exceed the budget and leave z3 with unknowns on the deepest Daubechies/Fidelity lifting chains)
+                if d + dh > (2 if (q or wi != wh) else 3):
                     continue
                 cases = [(w, h, rnd.choice([(1, 1), (8, 8), (10, 8), (16, 12), (8, 10)])) for (w, h) in sizes]
                 if q:
                     cases = rnd.sample(cases, 2)
+                elif d + dh == 3:
+                    cases = cases[:5]
                 out.append({"id": "codec w%d/%d d%d/%d" % (wi, wh, d, dh), "harness": "codec", "args": (wi, wh, d, dh, cases)})
     for (w, h) in ([(1, 1), (2, 2), (3, 4), (4, 4)] if q else [(1, 1), (2, 2), (3, 4), (4, 4), (8, 8), (5, 7)]):
         out.append({"id": "dcpred %dx%d" % (w, h), "harness": "dcpred", "args": (w, h)})
